@@ -248,11 +248,13 @@ Quiet(c) == QuietEP(<<c, 1>>) /\ QuietEP(<<c, 2>>)
 TSend ==
   /\ IsEvent("send")
   /\ UNCHANGED <<cvars, nodeOf, saved, everRAA, projB>>
+  \* (the recipient decides when it processes the HTLC, looking at everything pending by then: the promise is about
+  \*  this HTLC alone -- any further send, by either side, ends it for the earlier ones)
   /\ fw' = IF R.result = "ok"
             THEN [fw EXCEPT !.pays = @ \cup {[hash |-> R.hash, payer |-> R.node, amt |-> R.amt, snap |-> R.snap]},
                             !.mustAcc = IF R.direct /\ R.usable /\ R.chan \in DOMAIN nodeOf /\ R.chan \notin fw.shut /\ Quiet(R.chan)
-                                        THEN @ \cup {<<R.chan, R.hash>>} ELSE @]
-            ELSE fw
+                                        THEN {<<R.chan, R.hash>>} ELSE {}]
+            ELSE [fw EXCEPT !.mustAcc = {}]
   /\ G1(R.usable => /\ (R.first_amt >= R.min /\ R.first_amt <= R.limit) => R.result = "ok"
                     /\ (R.first_amt > R.limit \/ R.first_amt < R.min) => R.result = "err")
 
